@@ -7,6 +7,7 @@ from fdlstatic import cfg as cfg_lib
 from fdlstatic.ctx import Ctx, kwarg
 from fdlstatic.keykind import KeyKind
 from fdlstatic.model import AnalysisError, unparse, walk_function, walk_stmts
+from fdlstatic import roles
 from fdlstatic.report import RuleSet
 from fdlstatic.rules import sigrules
 
@@ -322,9 +323,15 @@ def run(ctx: Ctx, rs: RuleSet, tier: str):
   g = ctx.cfg(sv)
   branch = [n for n in g.nodes() if g.kind[n] == 'if' and
             'TaggedValueCls' in unparse(g.stmt[n].test)]
+  def tag_set_of(e):
+    # X.__argument_tags__[k], directly or through a local holding that set
+    e = roles.deref(sv, e)
+    return e if isinstance(e, ast.Subscript) and isinstance(
+        e.value, ast.Attribute) and e.value.attr == '__argument_tags__' else None
+
   merges = [n for n in g.nodes() if any(
       isinstance(e, ast.Call) and isinstance(e.func, ast.Attribute) and
-      e.func.attr == 'update' and '__argument_tags__' in unparse(e.func)
+      e.func.attr == 'update' and tag_set_of(e.func.value) is not None
       for e in cfg_lib.walk_node(g, n))]
   stores = [n for n in g.nodes() if isinstance(g.stmt[n], ast.Assign) and any(
       isinstance(t, ast.Subscript) and unparse(t.value).endswith(
@@ -344,10 +351,10 @@ def run(ctx: Ctx, rs: RuleSet, tier: str):
     ok = ok and any(x in g.reach(t_succ, blocked=set(stores),
                                  labels=cfg_lib.NO_EXC) for x in rets)
     # tags merged under the same key as the store
-    mk = [unparse(e.func.value.slice) for n in merges
+    mk = [unparse(tag_set_of(e.func.value).slice) for n in merges
           for e in cfg_lib.walk_node(g, n)
           if isinstance(e, ast.Call) and isinstance(e.func, ast.Attribute) and
-          e.func.attr == 'update' and isinstance(e.func.value, ast.Subscript)]
+          e.func.attr == 'update' and tag_set_of(e.func.value) is not None]
     ok = ok and mk == [sv.params[1]]
   rs.check(ok, rule, f'{sv.qualname}:TaggedValue',
            'tags merged under the same key; the stored value is the '
